@@ -129,74 +129,166 @@ impl Outcome {
     }
 }
 
-/// Evaluate a batch of cases in forked children. One child handles as many cases as it survives;
-/// when it dies (abort on a refused giant allocation, signal) the case it was working on gets
-/// `on_death` and a new child continues with the next case.
-pub fn eval_batch<C>(cases: &[C], eval: &dyn Fn(&C, i32) -> Outcome, on_death: &dyn Fn(&C, &ChildDeath) -> Outcome) -> Vec<Outcome> {
-    let mut out: Vec<Option<Outcome>> = vec![None; cases.len()];
-    let mut start = 0;
-    while start < cases.len() {
-        let limits = vcore::fork::Limits { cpu_s: 120, wall_s: 300, as_bytes: 0 };
-        let r = vcore::fork::run_in_child(limits, |fd| {
-            vcore::alloc::set_single_request_cap(512 << 20);
-            vcore::alloc::set_report_fd(fd);
-            unsafe {
+/// Evaluator process. All calls into dust-dds happen in a forked worker: decoding a mis-framed
+/// stream (which the C09/C10 findings make dust-dds do with its own output) can request absurd
+/// allocations (abort, not panic) or spin while allocating; the worker also owns all the leaked
+/// `'static` type descriptors. The parent generates and shrinks cases and talks to the worker
+/// over pipes (one JSON line per case / outcome). A worker that dies or exceeds its per-case CPU
+/// allowance is an observation about the case it was working on; a new worker is forked for the
+/// next case.
+pub struct Worker<'a, C> {
+    eval: &'a dyn Fn(&C, i32) -> Outcome,
+    on_death: &'a dyn Fn(&C, &ChildDeath) -> Outcome,
+    chan: Option<(i32, std::io::BufReader<std::fs::File>, i32)>, // (write fd, reader, pid)
+    served: u32,
+    pub deaths: u32,
+}
+
+const WORKER_RECYCLE: u32 = 4000;
+const CASE_CPU_SECONDS: i64 = 4;
+const WORKER_AS_BYTES: u64 = 3 << 30;
+
+impl<'a, C: serde::Serialize + serde::de::DeserializeOwned> Worker<'a, C> {
+    pub fn new(eval: &'a dyn Fn(&C, i32) -> Outcome, on_death: &'a dyn Fn(&C, &ChildDeath) -> Outcome) -> Self {
+        Worker { eval, on_death, chan: None, served: 0, deaths: 0 }
+    }
+
+    fn spawn(&mut self) {
+        use std::io::{BufRead, Write};
+        use std::os::fd::FromRawFd;
+        unsafe {
+            let mut down = [0i32; 2]; // parent -> worker
+            let mut up = [0i32; 2]; // worker -> parent
+            assert!(libc::pipe(down.as_mut_ptr()) == 0 && libc::pipe(up.as_mut_ptr()) == 0, "pipe");
+            let pid = libc::fork();
+            assert!(pid >= 0, "fork");
+            if pid == 0 {
+                libc::close(down[1]);
+                libc::close(up[0]);
+                let rl = libc::rlimit { rlim_cur: WORKER_AS_BYTES, rlim_max: WORKER_AS_BYTES };
+                libc::setrlimit(libc::RLIMIT_AS, &rl);
+                let rl = libc::rlimit { rlim_cur: 0, rlim_max: 0 };
+                libc::setrlimit(libc::RLIMIT_CORE, &rl);
                 let null = libc::open(c"/dev/null".as_ptr(), libc::O_WRONLY);
                 if null >= 0 {
                     libc::dup2(null, 2);
                 }
-            }
-            for (i, c) in cases.iter().enumerate().skip(start) {
-                mark(fd, &format!("CASE {i}"));
-                let o = eval(c, fd);
-                let mut line = format!("#DONE {i} ").into_bytes();
-                line.extend(serde_json::to_vec(&o).unwrap());
-                line.push(b'\n');
-                unsafe {
-                    let mut off = 0;
-                    while off < line.len() {
-                        let n = libc::write(fd, line[off..].as_ptr() as *const libc::c_void, line.len() - off);
-                        if n <= 0 {
-                            break;
-                        }
-                        off += n as usize;
+                let mut input = std::io::BufReader::new(std::fs::File::from_raw_fd(down[0]));
+                let mut output = std::fs::File::from_raw_fd(up[1]);
+                let mut line = String::new();
+                loop {
+                    line.clear();
+                    match input.read_line(&mut line) {
+                        Ok(0) | Err(_) => libc::_exit(0),
+                        Ok(_) => {}
+                    }
+                    let case: C = match serde_json::from_str(&line) {
+                        Ok(c) => c,
+                        Err(_) => libc::_exit(3),
+                    };
+                    // per-case CPU allowance (process CPU time, insensitive to machine load)
+                    let tv = libc::itimerval {
+                        it_interval: libc::timeval { tv_sec: 0, tv_usec: 0 },
+                        it_value: libc::timeval { tv_sec: CASE_CPU_SECONDS, tv_usec: 0 },
+                    };
+                    libc::setitimer(libc::ITIMER_VIRTUAL, &tv, std::ptr::null_mut());
+                    let o = (self.eval)(&case, up[1]);
+                    let off = libc::itimerval {
+                        it_interval: libc::timeval { tv_sec: 0, tv_usec: 0 },
+                        it_value: libc::timeval { tv_sec: 0, tv_usec: 0 },
+                    };
+                    libc::setitimer(libc::ITIMER_VIRTUAL, &off, std::ptr::null_mut());
+                    let mut reply = b"#DONE ".to_vec();
+                    reply.extend(serde_json::to_vec(&o).unwrap());
+                    reply.push(b'\n');
+                    if output.write_all(&reply).is_err() {
+                        libc::_exit(0);
                     }
                 }
             }
-            Vec::new()
-        });
-        let text = String::from_utf8_lossy(&r.payload).to_string();
-        let mut last_case: Option<usize> = None;
-        let mut last_marker = String::new();
-        for l in text.lines() {
-            if let Some(rest) = l.strip_prefix("#DONE ") {
-                if let Some((idx, js)) = rest.split_once(' ') {
-                    if let (Ok(i), Ok(o)) = (idx.parse::<usize>(), serde_json::from_str::<Outcome>(js)) {
-                        out[i] = Some(o);
-                    }
+            libc::close(down[0]);
+            libc::close(up[1]);
+            self.chan = Some((down[1], std::io::BufReader::new(std::fs::File::from_raw_fd(up[0])), pid));
+            self.served = 0;
+        }
+    }
+
+    fn reap(&mut self) -> String {
+        if let Some((w, _r, pid)) = self.chan.take() {
+            unsafe {
+                libc::close(w);
+                let mut status = 0i32;
+                libc::waitpid(pid, &mut status, 0);
+                if libc::WIFSIGNALED(status) {
+                    return format!("signal {}", libc::WTERMSIG(status));
+                } else if libc::WIFEXITED(status) {
+                    return format!("exit {}", libc::WEXITSTATUS(status));
                 }
-            } else if let Some(m) = l.strip_prefix("@CASE ") {
-                last_case = m.trim().parse().ok();
-                last_marker.clear();
-            } else if let Some(m) = l.strip_prefix('@') {
-                last_marker = m.to_string();
             }
         }
-        // first case without a result
-        match (start..cases.len()).find(|i| out[*i].is_none()) {
-            None => break,
-            Some(i) => {
-                let death = ChildDeath {
-                    marker: if last_case == Some(i) { last_marker } else { String::new() },
-                    refused_alloc: r.alloc_refused(),
-                    exit: format!("{:?}", r.exit),
-                };
-                out[i] = Some(on_death(&cases[i], &death));
-                start = i + 1;
+        "gone".into()
+    }
+
+    pub fn eval(&mut self, case: &C) -> Outcome {
+        use std::io::BufRead;
+        if std::env::var("XCDR_INPROCESS").is_ok() {
+            return (self.eval)(case, -1);
+        }
+        if self.chan.is_none() || self.served >= WORKER_RECYCLE {
+            self.reap();
+            self.spawn();
+        }
+        self.served += 1;
+        let mut msg = serde_json::to_vec(case).unwrap();
+        msg.push(b'\n');
+        let (wfd, reader, _pid) = self.chan.as_mut().unwrap();
+        let mut off = 0;
+        let mut write_failed = false;
+        while off < msg.len() {
+            let n = unsafe { libc::write(*wfd, msg[off..].as_ptr() as *const libc::c_void, msg.len() - off) };
+            if n <= 0 {
+                write_failed = true;
+                break;
+            }
+            off += n as usize;
+        }
+        let mut marker = String::new();
+        if !write_failed {
+            let mut line = String::new();
+            loop {
+                line.clear();
+                match reader.read_line(&mut line) {
+                    Ok(0) | Err(_) => break,
+                    Ok(_) => {
+                        if let Some(js) = line.strip_prefix("#DONE ") {
+                            if let Ok(o) = serde_json::from_str::<Outcome>(js) {
+                                return o;
+                            }
+                        } else if let Some(m) = line.strip_prefix('@') {
+                            marker = m.trim().to_string();
+                        }
+                    }
+                }
+            }
+        }
+        // the worker died on this case
+        self.deaths += 1;
+        let exit = self.reap();
+        let refused = if exit == "signal 6" { Some(0) } else { None };
+        (self.on_death)(case, &ChildDeath { marker, refused_alloc: refused, exit })
+    }
+}
+
+impl<'a, C> Drop for Worker<'a, C> {
+    fn drop(&mut self) {
+        if let Some((w, _r, pid)) = self.chan.take() {
+            unsafe {
+                libc::close(w);
+                let mut status = 0i32;
+                libc::waitpid(pid, &mut status, 0);
             }
         }
     }
-    out.into_iter().map(|o| o.unwrap_or_default()).collect()
 }
 
 pub struct CampaignCfg<'a> {
@@ -221,9 +313,10 @@ pub fn campaign<S, C>(
     sample: &dyn Fn(&C) -> Value,
 ) where
     S: Strategy,
-    C: serde::Serialize,
+    C: serde::Serialize + serde::de::DeserializeOwned,
 {
     use proptest::strategy::ValueTree;
+    let worker = RefCell::new(Worker::new(eval, on_death));
     let known = Known::load(&ctx.id);
     let mut seen: BTreeSet<String> = BTreeSet::new();
     let mut runner = vcore::pt::runner(cfg.cases, ctx.rng_seed(cfg.stream), cfg.max_shrink);
@@ -236,7 +329,7 @@ pub fn campaign<S, C>(
             trees.push(strategy.new_tree(&mut runner).expect("strategy"));
         }
         let cases: Vec<C> = trees.iter().map(|t| realize(&t.current())).collect();
-        let outs = eval_batch(&cases, eval, on_death);
+        let outs: Vec<Outcome> = cases.iter().map(|c| worker.borrow_mut().eval(c)).collect();
         for (idx, o) in outs.into_iter().enumerate() {
             let js = serde_json::to_value(&cases[idx]).unwrap();
             let key = vcore::hash_json(&js);
@@ -261,7 +354,7 @@ pub fn campaign<S, C>(
                     let tree = &mut trees[idx];
                     let mut best: (Value, String, String) = (js, sig.clone(), what);
                     let fails = |c: &C| -> Option<(String, String)> {
-                        let o = eval_batch(std::slice::from_ref(c), eval, on_death).pop().unwrap();
+                        let o = worker.borrow_mut().eval(c);
                         match o.verdict {
                             Some((s, w)) if !s.starts_with("harness:") && !known.matches(&s) && !seen.contains(&s) => Some((s, w)),
                             _ => None,
@@ -300,13 +393,19 @@ pub fn campaign<S, C>(
         done += n as u32;
     }
     report.stats.extra.insert("cases".into(), serde_json::json!(report.stats.evaluations));
+    report.stats.extra.insert("worker_deaths".into(), serde_json::json!(worker.borrow().deaths));
     report.stats.extra.insert("oracle_evaluations".into(), serde_json::json!(total_evals));
     report.stats.evaluations = total_evals;
 }
 
 /// Evaluate one saved case (replay) in a child and record the result.
-pub fn replay_case<C: serde::Serialize>(report: &mut Report, case: &C, eval: &dyn Fn(&C, i32) -> Outcome, on_death: &dyn Fn(&C, &ChildDeath) -> Outcome) {
-    let o = eval_batch(std::slice::from_ref(case), eval, on_death).pop().unwrap();
+pub fn replay_case<C: serde::Serialize + serde::de::DeserializeOwned>(
+    report: &mut Report,
+    case: &C,
+    eval: &dyn Fn(&C, i32) -> Outcome,
+    on_death: &dyn Fn(&C, &ChildDeath) -> Outcome,
+) {
+    let o = Worker::new(eval, on_death).eval(case);
     report.stats.evaluations = 1;
     match o.verdict {
         Some((signature, what)) => {
@@ -329,6 +428,9 @@ pub struct ChildDeath {
 }
 
 pub fn mark(fd: i32, s: &str) {
+    if fd < 0 {
+        return;
+    }
     let line = format!("@{s}\n");
     unsafe {
         libc::write(fd, line.as_ptr() as *const libc::c_void, line.len());
